@@ -434,6 +434,19 @@ static POINT_DELAY_US: [AtomicU32; 16] = [const { AtomicU32::new(0) }; 16];
 static FUTEX_WAITS: AtomicU64 = AtomicU64::new(0);
 static FUTEX_SLEPT: AtomicU64 = AtomicU64::new(0);
 static TRACED: AtomicBool = AtomicBool::new(false);
+/// tid -> slot index + 1 of the closure running on that thread (pid_max is 32768 here)
+static TIDMAP: [AtomicU32; 65536] = [const { AtomicU32::new(0) }; 65536];
+/// set by the joiner right after `join` returned for that slot
+static JOINED: [AtomicU32; MAXT] = [const { AtomicU32::new(0) }; MAXT];
+/// thread-side epilogue points executed after the joiner already had its `join` return
+static LATE_THREAD_CODE: AtomicU64 = AtomicU64::new(0);
+fn gettid() -> u32 {
+    let r: usize;
+    unsafe {
+        core::arch::asm!("syscall", inlateout("rax") 186usize => r, lateout("rcx") _, lateout("r11") _, options(nostack));
+    }
+    r as u32
+}
 fn point_cb(id: u32) {
     if (300..316).contains(&id) {
         let k = (id - 300) as usize;
@@ -445,6 +458,15 @@ fn point_cb(id: u32) {
         let d = POINT_DELAY_US[k].load(Ordering::Relaxed);
         if d > 0 {
             sleep_us(u64::from(d));
+        }
+    }
+    if (304..=307).contains(&id) {
+        // thread-side epilogue (checked after the seeded delay): if the joiner has already seen `join`
+        // return, join did not wait for this thread to finish
+        let t = gettid() as usize & 0xFFFF;
+        let slot = TIDMAP[t].load(Ordering::Relaxed);
+        if slot > 0 && JOINED[(slot - 1) as usize].load(Ordering::Relaxed) == 1 {
+            LATE_THREAD_CODE.fetch_add(1, Ordering::Relaxed);
         }
     }
 }
@@ -640,7 +662,9 @@ fn spawn_one<T: Res>(idx: usize, tag: u64, panics: bool, wait_gate: bool, work_u
     unsafe {
         BUF[idx] = [0; 8];
     }
+    JOINED[idx].store(0, Ordering::Relaxed);
     tiny_std::thread::spawn(move || {
+        TIDMAP[gettid() as usize & 0xFFFF].store(idx as u32 + 1, Ordering::Relaxed);
         RUNS[idx].fetch_add(1, Ordering::Relaxed);
         if wait_gate {
             let mut k = 0u32;
@@ -734,6 +758,7 @@ fn run_one<T: Res>(idx: usize, seed: u64, disp: Disp, panics: bool, r: &mut Rng,
     match disp {
         Disp::JoinEarly | Disp::JoinLate | Disp::JoinRace => {
             let got = h.join();
+            JOINED[idx].store(1, Ordering::Relaxed);
             judge_join::<T>(idx, tag, panics, got, disp, o);
         }
         _ => {
@@ -826,6 +851,10 @@ fn emit_points() {
             println!("@@COUNT point_{n} {v}");
             println!("@@DISTINCT point/{n}");
         }
+    }
+    let late = LATE_THREAD_CODE.swap(0, Ordering::Relaxed);
+    if late > 0 {
+        viol("C05/join-returned-while-thread-still-running", "thread-side epilogue code ran after join had returned", late, 0, 0);
     }
     let (se, so) = (SPUR_EINTR.swap(0, Ordering::Relaxed), SPUR_OK.swap(0, Ordering::Relaxed));
     if se + so > 0 {
@@ -1064,6 +1093,7 @@ fn scen_mixed(seed: u64, n: usize, live: usize) {
                 let (h, i, tag, panics) = hs[j].take().unwrap();
                 if r.below(2) == 0 {
                     let got = h.join();
+                    JOINED[i].store(1, Ordering::Relaxed);
                     judge_join::<u64>(i, tag, panics, got, Disp::JoinRace, &mut o);
                 } else {
                     drop(h);
@@ -1185,6 +1215,7 @@ fn scen_fault(seed: u64, n: usize, nr: i64, ret: i64) {
                 marker::report(78, pos as i64, 0, 0, 0); // about to join the doomed handle
             }
             let got = h.join();
+            JOINED[i].store(1, Ordering::Relaxed);
             judge_join::<u64>(i, tag, false, got, Disp::JoinRace, &mut o);
         }
         marker::end(2, nr, pos as i64, o.spawn_err as i64, 0);
